@@ -508,6 +508,8 @@ pub struct Stats {
     pub capped: bool,
     /// Highest preemption bound explored completely; -1 if none.
     pub bound_completed: i64,
+    /// Schedules cut off at the point limit (a loop the scheduler cannot get out of): not judged.
+    pub too_long: u64,
 }
 
 /// Preemption-bounded DFS. `run_one(prefix)` runs an execution and returns it;
@@ -559,6 +561,9 @@ fn rec(
         stats.max_points = stats.max_points.max(x.points.len());
     }
     if x.aborted && x.too_long {
+        if counted {
+            stats.too_long += 1;
+        }
         return;
     }
     // Branch at every point after the prefix. Default choices cost nothing;
